@@ -57,6 +57,7 @@ PROPS = {
     ),
     'C05': dict(
         units=['merge'],
+        replay_units=['tablepaths'],
         kani_quick=[],
         kani_thorough=['combine_subsumed_algebra', 'schema_math_layout', 'write_table_row_vec', 'id_axioms_u32'],
         design_ref='DESIGN.md section 4 (U-MIN, U-MERGE) and section 5 C05',
